@@ -53,7 +53,15 @@ fn parse_cfg_match_inner<'a>(
             && parser.token.kind != TokenKind::Eof
         {
             let item = match parser.parse_item(ForceCollect::No) {
-                Ok(Some(item_ptr)) => item_ptr.into_inner(),
+                Ok(Some(item_ptr)) => {
+                    // The parser recovered from a syntax error: the count it leaves behind in the
+                    // session would make the formatting that follows give up on its next macro.
+                    if parser.psess.dcx().has_errors().is_some() {
+                        parser.psess.dcx().reset_err_count();
+                        return Err("Failed to parse an item inside cfg_match block");
+                    }
+                    item_ptr.into_inner()
+                }
                 // Nothing was consumed: the token cannot start an item, looping would never end.
                 Ok(None) => {
                     return Err("Expected item inside cfg_match block, but found something else");
